@@ -64,11 +64,29 @@ static Verdict check_c16(const Case &c) {
             if (fi(bg.edges[j]) != (std::size_t) i) return F(base + "not-inverse", "fi(fi(i)) != i for " + std::to_string(i));
         }
         if (forest_count != s.n - comps) return F(base + "forest-size", "forest has " + std::to_string(forest_count) + " edges, expected n-c=" + std::to_string(s.n - comps));
-        // copy / assignment keep the mapping
+        // copies and assignments (also over an index of a different graph) must answer every query like the original
+        GraphSpec tri;
+        tri.n = 4;
+        tri.edges = {{0, 1}, {1, 2}, {2, 0}, {0, 3}, {1, 3}};
+        tri.w = {1, 1, 1, 1, 1};
+        BG<double> other(tri);
         parmcb::ForestIndex<BG<double>::graph_t> fj(fi);
-        parmcb::ForestIndex<BG<double>::graph_t> fk(bg.g);
+        parmcb::ForestIndex<BG<double>::graph_t> fk(other.g);
         fk = fj;
-        for (int i = 0; i < m; i++) if (fk(bg.edges[i]) != fi(bg.edges[i])) return F(base + "copy", "copy changes indices");
+        parmcb::ForestIndex<BG<double>::graph_t> fl(bg.g);
+        fl = fl;   // self assignment
+        const parmcb::ForestIndex<BG<double>::graph_t> *copies[] = {&fj, &fk, &fl};
+        const char *cname[] = {"copy-constructed", "assigned-over-other-graph", "self-assigned"};
+        for (int k = 0; k < 3; k++) {
+            const auto &fc = *copies[k];
+            if (fc.cycle_space_dimension() != fi.cycle_space_dimension() || fc.weak_connected_components() != fi.weak_connected_components())
+                return F(base + "copy", std::string(cname[k]) + " index reports dimension " + std::to_string(fc.cycle_space_dimension()) + " / components " + std::to_string(fc.weak_connected_components()));
+            for (int i = 0; i < m; i++) {
+                if (fc(bg.edges[i]) != fi(bg.edges[i])) return F(base + "copy", std::string(cname[k]) + " index changes edge numbers");
+                if (fc.is_on_forest(bg.edges[i]) != fi.is_on_forest(bg.edges[i])) return F(base + "copy", std::string(cname[k]) + " index changes is_on_forest");
+                if (bg.index_of(fc((std::size_t) i), s) != bg.index_of(fi((std::size_t) i), s)) return F(base + "copy", std::string(cname[k]) + " index changes the reverse lookup");
+            }
+        }
     } catch (const std::exception &e) {
         return F(base + "exception", e.what());
     }
